@@ -35,7 +35,7 @@ RuleTable == << R("inc",   0, "MAIN", FALSE, FALSE, "",  -1, -1, C_lt,  A_inc),
                 R("alt",   5, "MAIN", FALSE, FALSE, "x", -1, -1, C_ge,  A_none),
                 R("even", -5, "MAIN", FALSE, FALSE, "",  10, 20, C_ar,  A_inc),
                 R("gate",  0, "MAIN", FALSE, FALSE, "",  -1, -1, C_and, A_foc),
-                R("lock",  0, "G1",   TRUE,  FALSE, "",  -1, -1, C_ge,  A_inc),
+                R("lock",  0, "G1.sub", TRUE, FALSE, "", -1, -1, C_ge,  A_inc),
                 R("g1b",   7, "G1",   FALSE, TRUE,  "",  -1, -1, C_lt,  <<<<"focus", "MAIN">>>>),
                 R("ref",   0, "MAIN", FALSE, TRUE,  "",  -1, -1, C_ref, A_none),
                 R("bad",  -9, "MAIN", FALSE, FALSE, "",  -1, -1, C_ge,  A_bad) >>
@@ -75,8 +75,14 @@ Next == /\ nops' = nops + 1
            \/ SetFact("k", IntV(0)) \/ SetFact("k", IntV(2)) \/ SetFact("k", NumV(10))
            \/ SetFact("A.x", V("str", NoNum, <<97>>, <<>>)) \/ SetFact("A.x", IntV(1)) \/ SetFact("A.y", IntV(3))
            \/ \E i \in 1..MaxRules : RemoveRule(i)
-           \/ FocusOp("G1") \/ FocusOp("MAIN") \/ PopOp \/ ResetNL
+           \/ FocusOp("G1") \/ FocusOp("G1.sub") \/ FocusOp("MAIN") \/ PopOp \/ ResetNL
            \/ \E t \in Times : ExecOp(t)
+(* one lock-on-active rule in the dotted group and the focus operations only: a small alphabet whose EVERY sequence is replayed *)
+LockOnly == {7}
+NextFocus == /\ nops' = nops + 1
+             /\ \/ AddRule(7) \/ SetFact("k", IntV(0))
+                \/ FocusOp("G1") \/ FocusOp("G1.sub") \/ FocusOp("MAIN") \/ PopOp
+                \/ \E t \in Times : ExecOp(t)
 Spec == Init /\ [][Next]_vars
 
 (* C02 / C03 on the interpreter's own runs (L1): order within a pass, bounds, fixpoint *)
